@@ -21,6 +21,21 @@ def need(ctx, rule: str, qual: str, title: str, templates: list[str], why: str =
     return None
 
 
+def need_any(ctx, rule: str, qual: str, title: str, alternatives: list[list[str]], why: str = "", env: dict | None = None, **kw):
+    """like need(), with several spellings of the same requirement (e.g. a value held in a local or written where it is used)"""
+    fn = ctx.cfn(qual, **kw)
+    orig, m, _ = ctx.locate(qual)
+    for templates in alternatives:
+        e = tall(fn.body, templates, dict(env) if env else None)
+        if e is not None:
+            ctx.ok(rule, title, "; ".join(templates)[:300])
+            return e
+    missing = tfirst_missing(fn.body, alternatives[0], env)
+    ctx.fail(rule, title, m.path, orig.lineno, (why + " " if why else "") + f"[not found in {qual.split('.')[-1]}: `{missing}`]", orig,
+             expected=str(missing), found=" ; ".join(u(s) for s in fn.body)[:400])
+    return None
+
+
 def absent(ctx, rule: str, qual: str, title: str, templates: list[str], why: str = "", **kw):
     fn = ctx.cfn(qual, **kw)
     orig, m, _ = ctx.locate(qual)
